@@ -26,7 +26,7 @@ RULE = ("hyp: sequence (N=6..14 with kappa defined and >=2 residues of one charg
         "in-window proposals accepted iff u < min(1, exp(g_old-g_new)), g += ln f and H += 1 at the occupied bin, at every scheduled check "
         "the model's H, g, f, niter equal the machine's and 'flat <=> every window bin >= criterion x mean' decides sqrt(f)/reset, stop iff "
         "f <= threshold; returned array, DOS.txt, DOS_local.txt, histogram_bins.txt, hlog.txt, glog.txt, seqlog.txt agree with that bookkeeping. "
-        "One case in six runs the same machine twice and replays the second run (which must start from g=0, H=0 like the first). Non-trivial: run with >=1 accepted and >=1 rejected in-window proposal, >=1 out-of-window proposal and >=1 flat check that fired; "
+        "One case in five uses as threshold exactly the value f takes after 1-3 square roots (so that stopping is decided at f == threshold). One case in six runs the same machine twice and replays the second run (which must start from g=0, H=0 like the first). Non-trivial: run with >=1 accepted and >=1 rejected in-window proposal, >=1 out-of-window proposal and >=1 flat check that fired; "
         "distinct by the whole configuration.")
 ASSUMPTIONS = ["structure assumed by the replay: one uniform draw selects the move, one decides acceptance (two draws of the loop's PRNG per step); "
                "a structural mismatch is reported as an instrumentation error (exit 2), not as a violation",
@@ -95,6 +95,17 @@ def observed():
             setattr(Sequence if cls == "S" else W, name, orig)
 
 
+def threshold(case):
+    """Convergence threshold of a case: exp(conv), or - for 'conv_k' - exactly the value f takes after k square roots
+    (computed by the same operations as the schedule, so that 'f is at most the threshold' is decided at equality)."""
+    if case.get("conv_k"):
+        f = np.exp(1)
+        for _ in range(int(case["conv_k"])):
+            f = f ** 0.5
+        return float(f)
+    return float(np.exp(case["conv"]))
+
+
 def geometry(case):
     M, lo, nb = case["M"], case["lo"], case["nb"]
     return lo / M, (lo + nb) / M, nb
@@ -112,7 +123,7 @@ def run_observed(case):
             try:
                 sp = SequencePermutants(case["seq"])
                 sp.initializeWangLandauParameters(out, frozen=set(), nbins=nbins, binmin=binmin, binmax=binmax, flatchck=case["period"],
-                                                  flatcrit=case["crit"], convergence=float(np.exp(case["conv"])))
+                                                  flatcrit=case["crit"], convergence=threshold(case))
                 trace["machine"] = dict(nbins_actual=int(sp.WLM.nbins_actual), relevant_min=int(sp.WLM.relevant_min), relevant_max=int(sp.WLM.relevant_max),
                                         centres=[float(x) for x in sp.WLM.getBinCenters()])
                 base = 0
@@ -180,7 +191,7 @@ def check(ctx, case):
     g = [0.0] * M
     H = [0] * M
     f = np.exp(1)
-    thresh = float(np.exp(case["conv"]))
+    thresh = threshold(case)
     niter = 0
     nstep = 0
     cur = start
@@ -406,8 +417,11 @@ def hyp_case(draw, budget):
     crit = draw(st.sampled_from([0, 0, 0.1, 0.2, 0.3, 0.5, 0.7, 0.9]))
     conv = draw(st.sampled_from([0.6, 0.6, 0.3, 0.15, 0.08]))
     case = {"seq": seq, "M": M, "lo": lo, "nb": nb, "period": period, "crit": crit, "conv": conv, "tape": draw(st.integers(0, 2 ** 32 - 1)), "budget": budget}
+    if draw(st.integers(0, 4)) == 0:
+        case["conv_k"] = draw(st.integers(1, 3))      # stop exactly when f EQUALS the threshold
     if draw(st.integers(0, 5)) == 0:
         case["second_run"] = True
+        case.pop("conv_k", None)
         case["crit"] = 0          # so that the first run terminates
         case["conv"] = 0.6
     return case
